@@ -6,7 +6,7 @@ from common import BUILD, PY, REPO, VERIF
 WORKER = os.path.join(VERIF, "harness", "impl_worker.py")
 
 
-def _run_once(k, chunk, limit, tag, attempt):
+def _run_once(k, chunk, limit, tag, attempt, pyflags=()):
     d = os.path.join(BUILD, "impl")
     os.makedirs(d, exist_ok=True)
     fin = os.path.join(d, "%s_%d_%d_%d.in" % (tag, os.getpid(), k, attempt))
@@ -17,7 +17,7 @@ def _run_once(k, chunk, limit, tag, attempt):
     env = dict(os.environ, PYTHONPATH=REPO, PYTHONHASHSEED="0", PYTHONDONTWRITEBYTECODE="1")
     total = 6 * sum(c.get("limit", limit) for c in chunk) + 120     # wall clock; per-case limits are CPU time
     try:
-        subprocess.run([PY, WORKER, REPO, fin, fout, str(limit)], env=env, timeout=total,
+        subprocess.run([PY] + list(pyflags) + [WORKER, REPO, fin, fout, str(limit)], env=env, timeout=total,
                        stdout=subprocess.PIPE, stderr=subprocess.PIPE, cwd=d)
     except subprocess.TimeoutExpired:
         pass
@@ -38,12 +38,12 @@ def _run_once(k, chunk, limit, tag, attempt):
 
 
 def _run_chunk(args):
-    k, chunk, limit, tag = args
+    k, chunk, limit, tag, pyflags = args
     res = []
     attempt = 0
     retried = set()
     while len(res) < len(chunk):
-        part = _run_once(k, chunk[len(res):], limit, tag, attempt)
+        part = _run_once(k, chunk[len(res):], limit, tag, attempt, pyflags)
         res.extend(part)
         attempt += 1
         if len(res) < len(chunk):
@@ -52,7 +52,7 @@ def _run_chunk(args):
             i = len(res)
             if i not in retried:
                 retried.add(i)
-                alone = _run_once(k, [chunk[i]], limit, tag + "r", attempt)
+                alone = _run_once(k, [chunk[i]], limit, tag + "r", attempt, pyflags)
                 attempt += 1
                 if alone:
                     res.append(alone[0])
@@ -61,8 +61,9 @@ def _run_chunk(args):
     return k, res
 
 
-def run_cases(cases, limit=20.0, jobs=16, tag="c"):
-    """cases: list of dicts with an 'op' key. Returns results in order."""
+def run_cases(cases, limit=20.0, jobs=16, tag="c", pyflags=()):
+    """cases: list of dicts with an 'op' key. Returns results in order. pyflags: interpreter options for the child
+    processes (e.g. ("-O",): the implementation with assertions compiled away)."""
     if not cases:
         return []
     nchunks = min(jobs, max(1, len(cases) // 8))
@@ -72,5 +73,5 @@ def run_cases(cases, limit=20.0, jobs=16, tag="c"):
         chunks[i % nchunks].append(c)
         where.append((i % nchunks, len(chunks[i % nchunks]) - 1))
     with ThreadPoolExecutor(max_workers=nchunks) as ex:
-        done = dict(ex.map(_run_chunk, [(k, ch, limit, tag) for k, ch in enumerate(chunks)]))
+        done = dict(ex.map(_run_chunk, [(k, ch, limit, tag, tuple(pyflags)) for k, ch in enumerate(chunks)]))
     return [done[k][j] for k, j in where]
